@@ -12,8 +12,8 @@ handles the answer". Goroutine scheduling, sockets and timers are not in the mod
 Proved for ALL chains, caps, checkpoint lists, initial prefixes, random picks:
   * `C06_linear`     closed loop on a linear chain: from New + the first peer, after at most
                      ⌈missing / cap⌉ + |checkpoints| + 1 rounds the loop is quiescent and the table is exactly the node's chain with its last header as the tip —
-                     any cap ≥ 1, any ascending checkpoint list the chain contains, checkpoints enabled (or disabled
-                     once the F4a switch is flipped), initial store = genesis or any prefix;
+                     any cap ≥ 1, any ascending checkpoint list the chain contains, checkpoints enabled or disabled,
+                     initial store = genesis or any prefix;
   * `C06_checkpoint_cursor` + `C06_cursor_round`  throughout that loop nextCheckpoint is the first checkpoint above the tip
                      height (none when there is none); `C06_checkpoint_cursor_counterexample`: NOT so for arbitrary event
                      sequences (a reply that crosses two checkpoints leaves the cursor below the tip);
@@ -21,12 +21,16 @@ Proved for ALL chains, caps, checkpoint lists, initial prefixes, random picks:
                      one of them and sends it the request the cursor calls for;
   * `C06_announce`   an inv of an unknown block from a peer the manager listens to produces
                      getheaders(locator(tip), 0) to that peer THROUGH the duplicate filter.
-The unchanged code violates the full property in five ways (KNOWN_FINDINGS C06-F4a, F4b, F4c, F4d, X1); the model
-reproduces each, and the theorems that say so hold for ALL states:
-  * `C06_disabled_unrequested`   (F4a) headersFirstMode false ⇒ any headers message disconnects its sender, nothing stored;
-                                 `C06_linear_disabled_counterexample`;
-  * `C06_announce_filtered`      (F4b) last request (locator(tip), 0) ⇒ the announcement produces nothing;
-  * `C06_tick_keeps_exhausted_peer` (F4c) and `C06_tick_drops_passed_peer` (F4d) for handleCheckSyncPeer.
+Three defects this check found are REPAIRED in /repo (8573612 F4a, f49151a F4b, 0b0b1e1 F4d); the model follows them
+through the three switches of Model/Sync.lean (all `true` = the code as it is now), their witnesses run first on every
+check, and the theorems below are at full strength for the repaired code:
+  * `C06_linear` holds with checkpoints enabled AND disabled (`C06_disabled_mode`: New leaves headersFirstMode set);
+  * `C06_announce_after_answer`: once a headers message from the peer has been handled, an inv of an unknown block DOES
+    produce getheaders(locator(tip), 0) — the duplicate filter was cleared by that message;
+  * `C06_tick_keeps_passed_peer`: the watchdog keeps a sync peer we are at or ahead of.
+Two findings remain (KNOWN_FINDINGS C06-F4c, C06-X1); `C06_tick_keeps_exhausted_peer` states F4c for all states.
+`C06_unrequested_headers` and `C06_announce_filtered` describe rules that are still in the code (headers outside
+headers-first mode disconnect their sender; a repeat of a still unanswered request is dropped).
 -/
 import BHS.Props.C01
 import BHS.Model.Sync
@@ -41,16 +45,14 @@ variable {H : Type} [DecidableEq H]
 
 /-! ### linear catch-up -/
 
-/-- FULL STATEMENT (false for `disable_checkpoints = true` on the unchanged code, see
-    `C06_linear_disabled_counterexample`): the same without the hypothesis `hen`.
+/-- FULL STATEMENT (since /repo 8573612 also for `disable_checkpoints = true`).
     Closed loop engine × conformant node over a linear chain `C = done ++ rest` of new, clean, positive-work headers on
     the genesis row `g`, the table holding `done`: after New and the announcement of the peer (advertising height |C|)
     one request is out, and after at most ⌈|rest| / cap⌉ + |checkpoints| + 1 rounds the loop is quiescent with the table
     synced to `C` (every round is a full reply, or ends on a checkpoint, or brings the last missing header; one more
     round for the empty answer). -/
 theorem C06_linear (cfg : Sync.Cfg H) (g : Row H) (C : List (Src H)) (n : Node H) (p pick : Nat)
-    (hs : LinSetup cfg g C n) (hg : g.st = .lc) (hg0 : g.height = 0) (done rest : List (Src H)) (hsplit : C = done ++ rest)
-    (hen : cfg.disableCp = false ∨ f4aFixed = true) :
+    (hs : LinSetup cfg g C n) (hg : g.st = .lc) (hg0 : g.height = 0) (done rest : List (Src H)) (hsplit : C = done ++ rest) :
     ∃ req k st',
       (newPeer cfg (new cfg (run cfg.chain [g] done)) p true (C.length : Int) pick).2 = [.getheaders p req.1 req.2] ∧
       k ≤ (rest.length + n.cap - 1) / n.cap + cfg.checkpoints.length + 1 ∧
@@ -66,7 +68,7 @@ theorem C06_linear (cfg : Sync.Cfg H) (g : Row H) (C : List (Src H)) (n : Node H
   obtain ⟨t0, htop, hth, hthash, hmap⟩ := run_linear cfg.chain g done hg hl hn (fun x hx => hs.clean x (hsub x hx))
     (fun x hx => hs.work x (hsub x hx))
   rw [hg0, Nat.zero_add] at hth
-  obtain ⟨req, hact, hinv⟩ := lin_start hs p pick done rest hsplit _ t0 htop hth hthash hmap hen
+  obtain ⟨req, hact, hinv⟩ := lin_start hs p pick done rest hsplit _ t0 htop hth hthash hmap (Or.inr rfl)
   obtain ⟨k, st', hk, hr, hsync⟩ := lin_rounds_tight hs _ _ done rest req rfl hinv
   have := potential_le cfg n.cap rest.length done.length
   exact ⟨req, k, st', hact, by omega, hr, hsync⟩
@@ -99,11 +101,11 @@ theorem C06_cursor_round (cfg : Sync.Cfg H) (g : Row H) (C : List (Src H)) (n : 
       LinInv cfg g C p (handleHeaders cfg st p B).1 (done ++ B) rest' req' :=
   lin_round hs hi hne
 
-/-! ### F4a: checkpoints disabled -/
+/-! ### checkpoints disabled (former finding F4a, repaired by 8573612) -/
 
-/-- (F4a, for ALL states) while headersFirstMode is false every headers message from a connected, known peer is
-    "unrequested": the peer is disconnected and nothing is stored -/
-theorem C06_disabled_unrequested (cfg : Sync.Cfg H) (st : State H) (p : Nat) (q : PeerSt H) (hs : List (Src H))
+/-- outside headers-first mode every headers message from a connected, known peer is "unrequested": the peer is
+    disconnected and nothing is stored (the rule that made F4a fatal; `C06_disabled_mode` shows the mode is now set) -/
+theorem C06_unrequested_headers (cfg : Sync.Cfg H) (st : State H) (p : Nat) (q : PeerSt H) (hs : List (Src H))
     (hq : lookup st.peers p = some q) (hin : q.inMap = true) (hd : q.disc = false) (hf : st.headersFirst = false) :
     (handleHeaders cfg st p hs).2 = [.disconnect p] ∧ (handleHeaders cfg st p hs).1.store = st.store := by
   have hq1 : lookup (onHeadersReceived st.peers p) p = some (headersSeen q) := lookup_onHeadersReceived hq
@@ -113,10 +115,10 @@ theorem C06_disabled_unrequested (cfg : Sync.Cfg H) (st : State H) (p : Nat) (q 
   simp only [headersSeen_inMap, hin, hf, Bool.not_true, Bool.not_false, Bool.false_eq_true, if_false, if_true]
   refine ⟨?_, ?_⟩ <;> first | exact ha | rfl | trivial
 
-/-- New with checkpoints disabled leaves headersFirstMode at the F4a switch, and startSync does not set it -/
+/-- New with checkpoints disabled leaves headersFirstMode SET (8573612), and startSync keeps it -/
 theorem C06_disabled_mode (cfg : Sync.Cfg H) (store : Store H) (p pick : Nat) (lb : Int) (hd : cfg.disableCp = true)
     (hlb : (Sync.tipHeight store : Int) ≤ lb) :
-    (newPeer cfg (new cfg store) p true lb pick).1.headersFirst = f4aFixed := by
+    (newPeer cfg (new cfg store) p true lb pick).1.headersFirst = true := by
   have hnp : newPeer cfg (new cfg store) p true lb pick =
       startSync cfg { peers := [freshPeer p lb], syncPeer := none, headersFirst := newHeadersFirst cfg store, nextCp := cursorOf cfg (Sync.tipHeight store), store := store } pick := by
     rw [new_eq]
@@ -219,7 +221,7 @@ theorem C06_peer_loss (cfg : Sync.Cfg H) (st : State H) (p pick : Nat) (q : Peer
     · simp only [hk, if_true, hpush]; exact ⟨by first | rfl | trivial, by first | rfl | trivial⟩
     · simp only [hk, if_false, hpush]; exact ⟨by first | rfl | trivial, by first | rfl | trivial⟩
 
-/-! ### announcements (F4b) -/
+/-! ### announcements (former finding F4b, repaired by f49151a) -/
 
 /-- an inv whose last block is unknown, from a peer the manager listens to (the sync peer, or any peer while current):
     the manager calls PushGetHeadersMsg(locator(tip), 0) on that peer — what goes out is decided by the peer's
@@ -240,8 +242,10 @@ theorem C06_announce (cfg : Sync.Cfg H) (st : State H) (p : Nat) (q : PeerSt H) 
   · subst hc
     simp [hp]
 
-/-- (F4b, for ALL states) … and when that peer's last request was getheaders(locator(tip), 0) — which is how every
-    completed sync ends — the filter drops it: the announcement produces NOTHING -/
+/-- the filter itself: when the peer object still holds getheaders(locator(tip), 0) as its last request, the repeat is
+    dropped. Before f49151a every completed sync ended in that state and announcements produced nothing (F4b); now a
+    headers message clears the filter, so this state means "the request is still unanswered" — see
+    `C06_announce_after_answer` -/
 theorem C06_announce_filtered (cfg : Sync.Cfg H) (st : State H) (p : Nat) (q : PeerSt H) (invs : List (Bool × H)) (h : H)
     (cur : Bool) (b : H) (hq : lookup st.peers p = some q) (hin : q.inMap = true) (hne : invs.isEmpty = false)
     (hlast : lastBlockInv invs = some h) (hunk : byHash st.store h = none) (hcur : current cfg st = some cur)
@@ -266,7 +270,32 @@ theorem C06_announce_partial (cfg : Sync.Cfg H) (st : State H) (p : Nat) (q : Pe
   · simp [hf, hd, hid]
   · simp [hf, hd, hid]
 
-/-! ### the sync-peer watchdog (F4c, F4d) -/
+
+/-- FULL STRENGTH (F4b repaired): once ANY headers message from the peer has been handled without a new request going
+    out to it — in particular the empty answer that ends a sync — an inv of an unknown block from that peer (while the
+    manager listens to it) produces exactly getheaders(locator(tip), 0), whatever the last request was -/
+theorem C06_announce_after_answer (cfg : Sync.Cfg H) (st : State H) (p : Nat) (q : PeerSt H) (invs : List (Bool × H)) (h : H)
+    (cur : Bool) (hq : lookup st.peers p = some q) (hin : q.inMap = true) (hd : q.disc = false)
+    (hf : st.headersFirst = true) (hne : invs.isEmpty = false) (hlast : lastBlockInv invs = some h)
+    (hunk : byHash st.store h = none)
+    (hcur : current cfg (handleHeaders cfg st p []).1 = some cur)
+    (hlisten : st.syncPeer = some p ∨ cur = true) :
+    (handleHeaders cfg st p []).2 = [] ∧
+    (handleInv cfg (handleHeaders cfg st p []).1 p invs).2 = [.getheaders p (locator st.store) cfg.zero] := by
+  have hq1 : lookup (onHeadersReceived st.peers p) p = some (headersSeen q) := lookup_onHeadersReceived hq
+  have hh : handleHeaders cfg st p [] = ({ st with peers := onHeadersReceived st.peers p }, []) := by
+    unfold handleHeaders handleHeadersCore
+    simp only [hq1]
+    simp [headersSeen_inMap, hin, hf]
+  rw [hh] at hcur ⊢
+  refine ⟨rfl, ?_⟩
+  have hseen : (headersSeen q).prevStop = none := by
+    unfold headersSeen; simp [f4bFixed]
+  exact C06_announce_partial cfg { st with peers := onHeadersReceived st.peers p } p (headersSeen q) invs h cur hq1
+    (by rw [headersSeen_inMap]; exact hin) (by rw [headersSeen_disc]; exact hd) hne hlast hunk hcur hlisten
+    (Or.inl (by rw [hseen]; intro e; cases e))
+
+/-! ### the sync-peer watchdog (finding F4c; former finding F4d, repaired by 0b0b1e1) -/
 
 /-- (F4c, for ALL states) handleCheckSyncPeer never replaces a sync peer whose advertised / announced height equals our
     tip height — however many other candidates advertise more -/
@@ -285,18 +314,32 @@ theorem C06_tick_keeps_exhausted_peer (cfg : Sync.Cfg H) (st : State H) (sp pick
   | false => rfl
   | true => simp only [Bool.not_true, Bool.false_eq_true, if_false, ht, hq, hex, if_true]
 
-/-- (F4d, for ALL states; under the switch) once our tip is ABOVE everything the sync peer advertised, the stale tick
-    disconnects it -/
-theorem C06_tick_drops_passed_peer (cfg : Sync.Cfg H) (st : State H) (sp pick : Nat) (q : PeerSt H) (best : Row H)
-    (hsw : f4dFixed = false)
+/-- FULL STRENGTH (F4d repaired, 0b0b1e1): the watchdog keeps a sync peer whose advertised / announced height we have
+    reached OR PASSED — it no longer disconnects an up-to-date peer once a block it announced has been fetched -/
+theorem C06_tick_keeps_passed_peer (cfg : Sync.Cfg H) (st : State H) (sp pick : Nat) (q : PeerSt H) (best : Row H)
+    (stale : Bool) (hs : st.syncPeer = some sp) (hq : lookup st.peers sp = some q) (ht : getTip st.store = some best)
+    (hle : max q.lastBlock q.startHeight ≤ (best.height : Int)) :
+    tick cfg st stale pick = (st, []) := by
+  have hex : exhausted q best.height = true := by
+    unfold exhausted
+    simp only [f4dFixed, if_true]
+    exact decide_eq_true hle
+  unfold tick
+  rw [hs]
+  cases stale with
+  | false => rfl
+  | true => simp only [Bool.not_true, Bool.false_eq_true, if_false, ht, hq, hex, if_true]
+
+/-- … and still replaces one that is behind what it advertised: the stale tick disconnects it and looks for another -/
+theorem C06_tick_drops_lagging_peer (cfg : Sync.Cfg H) (st : State H) (sp pick : Nat) (q : PeerSt H) (best : Row H)
     (hs : st.syncPeer = some sp) (hq : lookup st.peers sp = some q) (ht : getTip st.store = some best)
-    (hlt : max q.lastBlock q.startHeight < (best.height : Int)) (hin : q.inMap = true) (hd : q.disc = false) :
+    (hgt : (best.height : Int) < max q.lastBlock q.startHeight) (hin : q.inMap = true) (hd : q.disc = false) :
     ∃ rest, (tick cfg st true pick).2 = .disconnect sp :: rest := by
   have hex : exhausted q best.height = false := by
     unfold exhausted
-    rw [hsw]
-    simp only [Bool.false_eq_true, if_false]
-    exact decide_eq_false (by omega)
+    split
+    · exact decide_eq_false (by omega)
+    · exact decide_eq_false (by omega)
   obtain ⟨_, ha⟩ := disconnectPeer_connected hq hd
   unfold tick
   rw [hs]
@@ -306,24 +349,7 @@ theorem C06_tick_drops_passed_peer (cfg : Sync.Cfg H) (st : State H) (sp pick : 
   simp only [ha]
   exact ⟨_, rfl⟩
 
-/-- with the F4d repair the watchdog keeps a sync peer we are ahead of -/
-theorem C06_tick_keeps_passed_peer (cfg : Sync.Cfg H) (st : State H) (sp pick : Nat) (q : PeerSt H) (best : Row H)
-    (stale : Bool) (hsw : f4dFixed = true)
-    (hs : st.syncPeer = some sp) (hq : lookup st.peers sp = some q) (ht : getTip st.store = some best)
-    (hle : max q.lastBlock q.startHeight ≤ (best.height : Int)) :
-    tick cfg st stale pick = (st, []) := by
-  have hex : exhausted q best.height = true := by
-    unfold exhausted
-    rw [hsw]
-    simp only [if_true]
-    exact decide_eq_true hle
-  unfold tick
-  rw [hs]
-  cases stale with
-  | false => rfl
-  | true => simp only [Bool.not_true, Bool.false_eq_true, if_false, ht, hq, hex, if_true]
-
-/-! ### non-vacuity and counterexamples: a concrete chain over `H := Nat` (toy hash `nonce + 1`) -/
+/-! ### non-vacuity and the remaining counterexample: a concrete chain over `H := Nat` (toy hash `nonce + 1`) -/
 
 /-- four headers on C01's root (hash 1000): hashes 11, 12, 13, 14 at heights 1..4 -/
 def exChain : List (Src Nat) := [C01.exSrc 1000 10, C01.exSrc 11 11, C01.exSrc 12 12, C01.exSrc 13 13]
@@ -360,20 +386,19 @@ example : (rounds (exCfg false) (exNode 3) 7 4
       ((newPeer (exCfg false) (new (exCfg false) [C01.exRoot]) 7 true 4 0).1, some ([1000], 12))).1.store.map (·.hash)) =
       [1000, 11, 12, 13, 14] := by decide
 
-/-- F4a: with checkpoints disabled the very first answer gets the peer disconnected and nothing is ever stored: the full
-    statement of `C06_linear` fails there. (Stated under the switch, so that it stays true when the switch is flipped.) -/
-theorem C06_linear_disabled_counterexample : f4aFixed = false →
-    (newPeer (exCfg true) (new (exCfg true) [C01.exRoot]) 7 true 4 0).2 = [.getheaders 7 [1000] 0] ∧
-    (rounds (exCfg true) (exNode 3) 7 1
-      ((newPeer (exCfg true) (new (exCfg true) [C01.exRoot]) 7 true 4 0).1, some ([1000], 0))).2 = none ∧
-    (rounds (exCfg true) (exNode 3) 7 1
-      ((newPeer (exCfg true) (new (exCfg true) [C01.exRoot]) 7 true 4 0).1, some ([1000], 0))).1.store = [C01.exRoot] ∧
-    [C01.exRoot].map (·.hash) ≠ C01.exRoot.hash :: exChain.map (exCfg true).chain.hashOf := by
-  decide
+/-- F4b repaired, on the example: after the sync above the peer announces an unknown block (hash 555) by inv: the request
+    getheaders(locator(tip), 0) goes out although it equals the last, answered one -/
+example : (handleInv (exCfg false) (rounds (exCfg false) (exNode 3) 7 4
+      ((newPeer (exCfg false) (new (exCfg false) [C01.exRoot]) 7 true 4 0).1, some ([1000], 12))).1 7 [(true, 555)]).2 =
+    [.getheaders 7 [14, 13, 12, 11, 1000] 0] := by decide
 
-/-- … while `SyncedTo` demands exactly that equality of the hash column -/
-example (s : Store Nat) (h : SyncedTo (exCfg true).chain C01.exRoot exChain s) :
-    s.map (·.hash) = C01.exRoot.hash :: exChain.map (exCfg true).chain.hashOf := h.1
+/-- checkpoints disabled (8573612): the same loop asks without stop hash, cap 3: two full replies and the empty answer -/
+example : (newPeer (exCfg true) (new (exCfg true) [C01.exRoot]) 7 true 4 0).2 = [.getheaders 7 [1000] 0] ∧
+    (rounds (exCfg true) (exNode 3) 7 3
+      ((newPeer (exCfg true) (new (exCfg true) [C01.exRoot]) 7 true 4 0).1, some ([1000], 0))).2 = none ∧
+    ((rounds (exCfg true) (exNode 3) 7 3
+      ((newPeer (exCfg true) (new (exCfg true) [C01.exRoot]) 7 true 4 0).1, some ([1000], 0))).1.store.map (·.hash)) =
+      [1000, 11, 12, 13, 14] := by decide
 
 /-- for arbitrary event sequences the cursor is NOT always the first checkpoint above the tip. Checkpoints at heights
     1 and 2; a headers message with the headers of heights 1, 2, 3 (a conformant answer to a request WITHOUT stop hash,
